@@ -703,7 +703,16 @@ class Subset(Family):
                                        "true" if not case["rp"] else "false")
         if "error" in obs["ll"]:
             return coq_expect_error(call, obs["ll"])
-        return "res_tables_eqb (%s) %s" % (call, coq_tables(obs["ll"]))
+        term = "res_tables_eqb (%s) %s" % (call, coq_tables(obs["ll"]))
+        # the wrappers: TableCollection.subset (record_provenance=False) and TreeSequence.subset
+        # (one provenance row) = C subset then sort, for every node list incl. the identity
+        if len(I["nodes"]) <= 8 and "error" not in obs["tc"] and "error" not in obs["ts"]:
+            w = "%s %s %s %s %s" % (coq_tables(I), czl(case["nodes"]), "%s",
+                                    "true" if case["rp"] else "false", "true" if case["ru"] else "false")
+            term += " && res_tables_prov_eqb (tc_subset %s) %s 0" % (w % "false", coq_tables(obs["tc"]))
+            term += " && res_tables_prov_eqb (ts_subset %s) %s %s" % (w % "true", coq_tables(obs["ts"]),
+                                                                     cz(obs.get("ts_prov", 1)))
+        return term
 
     def nontrivial(self, case, obs):
         return "error" not in obs["ll"] and 0 < len(case["nodes"]) and len(obs["input"]["edges"]) > 0
